@@ -470,7 +470,8 @@ func (IndexScenario) Execute(sim *sched.Sim, ci interface{}, prop string, race b
 	rebuilds := 0
 	queryRound := func(rd IdxRound, ri int) {
 		// drive the mutators to a transaction boundary
-		for i := 0; i < 5000 && !allFrozen(); i++ {
+		for i := 0; !allFrozen(); i++ {
+			stepBound(i, 500000, "index: mutators to a transaction boundary")
 			ok := sim.Decide(func(t *sched.Task) bool {
 				if isMut(t) {
 					return t.Point != "mut.op"
@@ -500,7 +501,8 @@ func (IndexScenario) Execute(sim *sched.Sim, ci interface{}, prop string, race b
 				rerr = ir.qs.RebuildIndexes()
 				sim.Yield("call.return", "rebuild")
 			})
-			for i := 0; i < 5000 && !rt.IsDone(); i++ {
+			for i := 0; !rt.IsDone(); i++ {
+				stepBound(i, 500000, "index: rebuild")
 				if !sim.Decide(func(t *sched.Task) bool { return !isMut(t) && t.Role != "tqworker" }) {
 					break
 				}
@@ -547,7 +549,8 @@ func (IndexScenario) Execute(sim *sched.Sim, ci interface{}, prop string, race b
 		if pendingAtFlush > 0 {
 			sim.Probe("Flush called while an index task is parked")
 		}
-		for i := 0; i < 5000 && !qt.IsDone(); i++ {
+		for i := 0; !qt.IsDone(); i++ {
+			stepBound(i, 500000, "index: query task")
 			if !sim.Decide(func(t *sched.Task) bool { return !isMut(t) }) {
 				break
 			}
@@ -584,7 +587,8 @@ func (IndexScenario) Execute(sim *sched.Sim, ci interface{}, prop string, race b
 		queryRound(rd, ri)
 	}
 	// run to completion and do a final round
-	for i := 0; i < 20000; i++ {
+	for i := 0; ; i++ {
+		stepBound(i, 1000000, "index: run to completion")
 		if !sim.Decide(nil) {
 			break
 		}
